@@ -5,9 +5,11 @@ import CelmaVerif.Lemmas.KeysCmdline
   C05 — a key designates exactly one argument, independent of definition order.
   Property theorems only; helper lemmas are in Lemmas/Keys.lean and Lemmas/KeysParse.lean.
 
-  `Key.parse`, `addArgument`, `findArg` model the code after the two `fix:` commits
-  (exact matches first in `ArgumentContainer::findArg`; leading-dash count in `ArgumentKey`);
-  `findArgHead` / `Key.parseHead` are the pinned code, used only by the two witness theorems.
+  `Key.parse`, `addArgument`, `findArg`, `wordKey`/`cmdKey` model the code after the three `fix:` commits
+  (exact matches first in `ArgumentContainer::findArg`; leading-dash count in `ArgumentKey`; the
+  lookup key of a one-character name in `Handler::evalSingleArgument`);
+  `findArgHead` / `Key.parseHead` / `cmdLookupHead` are the pinned code, used only by the witness
+  theorems `C05_head_*`.
 -/
 namespace CelmaVerif.Props.C05
 open CelmaVerif CelmaVerif.Keys
@@ -17,7 +19,7 @@ open CelmaVerif CelmaVerif.Keys
 /-- After any sequence of `addArgument( spec)` calls — accepted, refused because of the key, or
     refused because the specification does not parse — the table is `Disjoint`: no two entries share a
     short key or a long key or are both the positional key.  (This is literally the hypothesis of
-    `C05_exact_wins`, `C05_order_independent` and `C05_cmdline_exact_partial`.) -/
+    `C05_exact_wins`, `C05_order_independent` and `C05_cmdline_exact`.) -/
 theorem C05_keys_disjoint {α : Type} (specs : List (List Char × α)) : Disjoint (addAll [] specs) :=
   addAll_disjoint specs ([] : List (Key × α)) List.Pairwise.nil
 
@@ -120,22 +122,27 @@ theorem C05_definition_order_independent {α : Type} (abbr : Bool) (specs specs'
 /-! ### on the command line
 
   `classifyWord`/`cmdKey`/`cmdLookup` model how `Handler::evalSingleArgument` gets from a key word
-  to the entry: `-c` → `ArgumentKey( c)`, `--name` → `ArgumentKey( name)`, the latter through the
-  parser of key *specifications*. -/
+  to the entry: `-c` → `ArgumentKey( c)`, `--name` → `ArgumentKey( name)` through the parser of key
+  *specifications*, with the two dashes put back for a name of one character (`wordKey`; the code
+  after the `fix:` commit for the former finding `one-char-long-key`).  `cmdLookupHead` is the
+  pinned code, used only by the witness theorems `C05_head_one_char_long(_neg)`. -/
 
 /-- Which key word designates which lookup key, for every table and both abbreviation settings:
-    `-c` is looked up with the short key `c`; `--w` for a word `w` of two or more characters with the
-    long key `w`; `--c` for a single character `c` with the **short** key `c` (a synonym of `-c`:
-    the name is parsed like a specification, in which a lone character is a short key); in general
-    `--name` with whatever `Key.parse name` yields (`invalid_argument` when it does not parse). -/
+    `-c` is looked up with the short key `c`; `--w` for a key word `w` of **any** length with the
+    long key `w`; in particular `--c` for a single character `c` with the **long** key `c` (not a
+    synonym of `-c`); in general `--name` with whatever `wordKey name` yields (`invalid_argument`
+    when it does not parse), where `wordKey name` is `Key.parse name` for every name that is not
+    exactly one character long and `Key.parse "--c"` for the name `c`. -/
 theorem C05_cmdline_key {α : Type} (abbr : Bool) (t : List (Key × α)) :
     (∀ c, c ≠ '-' → c ≠ '\x00' → cmdLookup abbr t ['-', c] = findArg abbr t ⟨some c, []⟩) ∧
-    (∀ w, KeyWord w → '=' ∉ w → 2 ≤ w.length →
-      cmdLookup abbr t ('-' :: '-' :: w) = findArg abbr t ⟨none, w⟩) ∧
-    (∀ c, KeyChar c → c ≠ '=' → cmdLookup abbr t ['-', '-', c] = findArg abbr t ⟨some c, []⟩) ∧
+    (∀ w, KeyWord w → '=' ∉ w → cmdLookup abbr t ('-' :: '-' :: w) = findArg abbr t ⟨none, w⟩) ∧
+    (∀ c, KeyChar c → c ≠ '=' → cmdLookup abbr t ['-', '-', c] = findArg abbr t ⟨none, [c]⟩) ∧
     (∀ name, name ≠ [] → '=' ∉ name →
-      cmdLookup abbr t ('-' :: '-' :: name) = (Key.parse name >>= fun k => findArg abbr t k)) :=
-  ⟨cmdLookup_short abbr t, cmdLookup_word abbr t, cmdLookup_one_char abbr t, cmdLookup_long abbr t⟩
+      cmdLookup abbr t ('-' :: '-' :: name) = (wordKey name >>= fun k => findArg abbr t k)) ∧
+    (∀ name, name.length ≠ 1 → wordKey name = Key.parse name) ∧
+    (∀ c, wordKey [c] = Key.parse ['-', '-', c]) :=
+  ⟨cmdLookup_short abbr t, cmdLookup_word abbr t, cmdLookup_one_char abbr t, cmdLookup_long abbr t,
+   wordKey_of_ne_one, wordKey_one⟩
 
 /-- Not refused although not a key of the documented syntax: one extra dash before a character and one
     or two extra dashes before a word are removed by the specification parser, so `---c` designates what
@@ -151,16 +158,17 @@ theorem C05_cmdline_extra_dashes {α : Type} (abbr : Bool) (t : List (Key × α)
 /-- "On the command line an exact key always selects its own argument", composed from the word to
     the entry: in a table without clashing keys, for every entry (at any position, whatever else is
     defined, abbreviations on or off) with a well-formed key, the word `-c` for its short key `c`
-    and the word `--w` for its long key `w` select that entry — **provided `w` has two or more
-    characters and contains no `=`**.
-    PARTIAL: the English sentence has no such proviso.  For a long key of one character the statement
-    is false of the code (`C05_finding_one_char_long`; known finding `one-char-long-key`); a long key
-    containing `=` can be defined but the argument-list iterator cuts the word `--a=b` at the `=`
-    (outside this model: `classifyWord` knows the two plain key words only). -/
-theorem C05_cmdline_exact_partial {α : Type} (abbr : Bool) (t : List (Key × α)) (ht : Disjoint t)
+    and the word `--w` for its long key `w` — of one character or more — select that entry.
+    Domain: long keys without `=`, i.e. every long key that can be typed as a key word at all: the
+    command-line syntax `--name=value` makes the argument-list iterator cut the word at the first `=`
+    (a specification like `a=b` is accepted by the constructor but is not a key of the documented
+    syntax; `classifyWord` knows the two plain key words only, the cut is the handler model's).
+    (Before the `fix:` commit for the finding `one-char-long-key` this needed `2 ≤ |w|` and was
+    named `C05_cmdline_exact_partial`; the pinned code violates it: `C05_head_one_char_long_neg`.) -/
+theorem C05_cmdline_exact {α : Type} (abbr : Bool) (t : List (Key × α)) (ht : Disjoint t)
     (e : Key × α) (he : e ∈ t) (hwf : e.1.WellFormed) :
     (∀ c, e.1.short = some c → payload (cmdLookup abbr t ['-', c]) = .ok (some e.2)) ∧
-    (2 ≤ e.1.long.length → '=' ∉ e.1.long →
+    (e.1.long ≠ [] → '=' ∉ e.1.long →
       payload (cmdLookup abbr t ('-' :: '-' :: e.1.long)) = .ok (some e.2)) := by
   constructor
   · intro c hc
@@ -168,46 +176,62 @@ theorem C05_cmdline_exact_partial {α : Type} (abbr : Bool) (t : List (Key × α
     have h2 : c ≠ '\x00' := fun h => hwf.2.2.2.1 (by rw [hc, h])
     rw [cmdLookup_short abbr t c h1 h2]
     exact findArg_exact abbr t ht e he _ (Or.inr rfl) (Or.inl ⟨by rw [hc]; rfl, hc⟩)
-  · intro hlen heq
-    have hne : e.1.long ≠ [] := by
-      intro h; rw [h] at hlen; simp at hlen
-    rw [cmdLookup_word abbr t e.1.long (keyWord_of_wellformed hwf hne) heq hlen]
-    exact findArg_exact abbr t ht e he _ (Or.inl rfl) (Or.inr (Or.inl ⟨hne, rfl⟩))
+  · intro hne heq
+    exact cmdline_exact_long abbr t ht e he hwf hne heq
 
 /-- The same from the definitions to the command line: after any sequence of `addArgument( spec)` calls,
-    every stored entry is selected by `-c` for its short key and by `--w` for its long key of two or
-    more characters without `=` (PARTIAL for the same reason as `C05_cmdline_exact_partial`). -/
-theorem C05_cmdline_exact_defined_partial {α : Type} (abbr : Bool) (specs : List (List Char × α))
+    every stored entry is selected by `-c` for its short key and by `--w` for its long key (any
+    length, no `=`; same domain as `C05_cmdline_exact`). -/
+theorem C05_cmdline_exact_defined {α : Type} (abbr : Bool) (specs : List (List Char × α))
     (e : Key × α) (he : e ∈ addAll [] specs) :
     (∀ c, e.1.short = some c → payload (cmdLookup abbr (addAll [] specs) ['-', c]) = .ok (some e.2)) ∧
-    (2 ≤ e.1.long.length → '=' ∉ e.1.long →
+    (e.1.long ≠ [] → '=' ∉ e.1.long →
       payload (cmdLookup abbr (addAll [] specs) ('-' :: '-' :: e.1.long)) = .ok (some e.2)) :=
-  C05_cmdline_exact_partial abbr _ (C05_keys_disjoint specs) e he (C05_keys_wellformed specs e he)
+  C05_cmdline_exact abbr _ (C05_keys_disjoint specs) e he (C05_keys_wellformed specs e he)
 
-/-- KNOWN FINDING `one-char-long-key` (the code, not the model: reproduced through the real
-    `Handler::evalArguments`, harness operation `keys word`).  The specifications `--v` and `-v` are
-    both accepted and define two arguments (long key `v`, short key `v`); the word `--v` selects the
-    argument of `-v`, in both definition orders; with `--v` defined alone the word `--v` is unknown,
-    and so is every other key word: the argument cannot be selected at all. -/
-theorem C05_finding_one_char_long :
+/-- The former finding `one-char-long-key` on the repaired code: the specifications `--v` and `-v`
+    define two arguments (long key `v`, short key `v`); the word `--v` selects the argument of `--v`
+    and the word `-v` the argument of `-v`, in both definition orders; `--v` defined alone is selected
+    by `--v` (and not by `-v`); with only `-v` defined the word `--v` is unknown. -/
+theorem C05_one_char_long :
     addAll [] [("--v".toList, 0), ("-v".toList, 1)] = [(⟨none, ['v']⟩, 0), (⟨some 'v', []⟩, 1)] ∧
-    payload (cmdLookup true (addAll [] [("--v".toList, 0), ("-v".toList, 1)]) "--v".toList) = .ok (some 1) ∧
-    payload (cmdLookup true (addAll [] [("-v".toList, 1), ("--v".toList, 0)]) "--v".toList) = .ok (some 1) ∧
-    payload (cmdLookup true (addAll [] [("--v".toList, 0)]) "--v".toList) = .ok none ∧
-    payload (cmdLookup true (addAll [] [("--v".toList, 0)]) "-v".toList) = .ok none :=
-  ⟨by decide, rfl, rfl, rfl, rfl⟩
+    payload (cmdLookup true (addAll [] [("--v".toList, 0), ("-v".toList, 1)]) "--v".toList) = .ok (some 0) ∧
+    payload (cmdLookup true (addAll [] [("--v".toList, 0), ("-v".toList, 1)]) "-v".toList) = .ok (some 1) ∧
+    payload (cmdLookup true (addAll [] [("-v".toList, 1), ("--v".toList, 0)]) "--v".toList) = .ok (some 0) ∧
+    payload (cmdLookup true (addAll [] [("-v".toList, 1), ("--v".toList, 0)]) "-v".toList) = .ok (some 1) ∧
+    payload (cmdLookup true (addAll [] [("--v".toList, 0)]) "--v".toList) = .ok (some 0) ∧
+    payload (cmdLookup true (addAll [] [("--v".toList, 0)]) "-v".toList) = .ok none ∧
+    payload (cmdLookup true (addAll [] [("-v".toList, 1)]) "--v".toList) = .ok none :=
+  ⟨by decide, rfl, rfl, rfl, rfl, rfl, rfl, rfl⟩
 
-/-- Hence the proviso `2 ≤ |w|` of `C05_cmdline_exact_partial` cannot be dropped: the unrestricted
-    statement is false. -/
-theorem C05_finding_one_char_long_neg :
+/-- Witness about the PINNED code (`cmdLookupHead`: `ArgumentKey( ai->mArgString)` for every name;
+    repaired by the `fix:` commit for the finding `one-char-long-key`, reproduced through the real
+    `Handler::evalArguments` with the harness operation `keys word`).  The specifications `--v` and
+    `-v` are both accepted and define two arguments; the word `--v` selected the argument of `-v`, in
+    both definition orders; with `--v` defined alone the word `--v` was unknown, and so was every
+    other key word: the argument could not be selected at all.  In general `--c` was looked up with
+    the short key `c`. -/
+theorem C05_head_one_char_long :
+    addAll [] [("--v".toList, 0), ("-v".toList, 1)] = [(⟨none, ['v']⟩, 0), (⟨some 'v', []⟩, 1)] ∧
+    payload (cmdLookupHead true (addAll [] [("--v".toList, 0), ("-v".toList, 1)]) "--v".toList) = .ok (some 1) ∧
+    payload (cmdLookupHead true (addAll [] [("-v".toList, 1), ("--v".toList, 0)]) "--v".toList) = .ok (some 1) ∧
+    payload (cmdLookupHead true (addAll [] [("--v".toList, 0)]) "--v".toList) = .ok none ∧
+    payload (cmdLookupHead true (addAll [] [("--v".toList, 0)]) "-v".toList) = .ok none ∧
+    (∀ (abbr : Bool) (t : List (Key × Nat)) (c : Char), KeyChar c → c ≠ '=' →
+      cmdLookupHead abbr t ['-', '-', c] = findArg abbr t ⟨some c, []⟩) :=
+  ⟨by decide, rfl, rfl, rfl, rfl, fun abbr t c hc he => cmdLookupHead_one_char abbr t c hc he⟩
+
+/-- Hence `C05_cmdline_exact` is false of the pinned code: the statement with `cmdLookupHead` in the
+    place of `cmdLookup` fails for the one-character long key. -/
+theorem C05_head_one_char_long_neg :
     ¬ (∀ (abbr : Bool) (t : List (Key × Nat)), Disjoint t → ∀ e ∈ t, e.1.WellFormed → e.1.long ≠ [] →
-        '=' ∉ e.1.long → payload (cmdLookup abbr t ('-' :: '-' :: e.1.long)) = .ok (some e.2)) := by
+        '=' ∉ e.1.long → payload (cmdLookupHead abbr t ('-' :: '-' :: e.1.long)) = .ok (some e.2)) := by
   intro h
   have hd : Disjoint (addAll ([] : List (Key × Nat)) [("--v".toList, 0), ("-v".toList, 1)]) :=
     C05_keys_disjoint _
   have h1 := h true _ hd (⟨none, ['v']⟩, 0) (by decide) (by decide) (by decide) (by decide)
   have h3 : (Res.ok (some 0) : Res (Option Nat)) = Res.ok (some 1) :=
-    h1.symm.trans C05_finding_one_char_long.2.1
+    h1.symm.trans C05_head_one_char_long.2.1
   exact absurd h3 (by simp)
 
 /-- Key words whose name contains no comma — all documented ones — give one-part lookup keys, the
@@ -218,7 +242,7 @@ theorem C05_cmdline_single (cw : CmdWord) (k : Key) (hc : ∀ name, cw = .long n
   | short c =>
     simp only [cmdKey, Res.ok.injEq] at h
     subst h; exact Or.inr rfl
-  | long name => exact parse_single_of_no_comma name (hc name rfl) k h
+  | long name => exact wordKey_single_of_no_comma name (hc name rfl) k h
 
 /-- A word whose name contains a comma, like `--x,beta`, is not a key of the documented syntax but is
     not refused either: it is looked up with the two-part key (`x`, `beta`), `operator==` compares
@@ -260,7 +284,7 @@ theorem C05_parse_forms (c : Char) (w : List Char) (hc : KeyChar c) (hw : KeyWor
       Key.parse (d₂ ++ w ++ [','] ++ d₁ ++ [c]) = .ok ⟨some c, w⟩) :=
   parse_forms c w hc hw
 
-/-! ### the two defects of the pinned commit (repaired by `fix:` commits), as witnesses -/
+/-! ### the two other defects of the pinned commit (repaired by `fix:` commits), as witnesses -/
 
 /-- Pinned `findArg`: with the long keys `input-file`, `input-dir`, `input` defined in this order,
     looking up the exact key `input` throws "matches more than one argument", while in the order
@@ -306,9 +330,14 @@ example : (⟨none, "input-f".toList⟩ : Key).Single ∧ ¬ ∃ e ∈ exampleTa
   have := List.all_eq_true.mp hall e he
   simp_all
 example : KeyChar 'v' ∧ KeyWord "x-ray".toList := by decide
--- `C05_cmdline_exact_partial` on the table above: all hypotheses hold for the entry `i,input`, both words select it
+-- `C05_cmdline_exact` on the table above: all hypotheses hold for the entry `i,input`, both words select it
 example : (⟨some 'i', "input".toList⟩, 0) ∈ exampleTable ∧ (⟨some 'i', "input".toList⟩ : Key).WellFormed ∧
-    2 ≤ "input".toList.length ∧ '=' ∉ "input".toList := by decide
+    "input".toList ≠ [] ∧ '=' ∉ "input".toList := by decide
+-- … and for a long key of one character defined next to the short key of the same character
+example : Disjoint (addAll ([] : List (Key × Nat)) [("--v".toList, 0), ("-v".toList, 1)]) ∧
+    ((⟨none, ['v']⟩ : Key), 0) ∈ addAll ([] : List (Key × Nat)) [("--v".toList, 0), ("-v".toList, 1)] ∧
+    (⟨none, ['v']⟩ : Key).WellFormed ∧ ['v'] ≠ [] ∧ '=' ∉ ['v'] :=
+  ⟨C05_keys_disjoint _, by decide, by decide, by decide, by decide⟩
 example : payload (cmdLookup false exampleTable "-i".toList) = .ok (some 0) ∧
     payload (cmdLookup true exampleTable "--input".toList) = .ok (some 0) ∧
     payload (cmdLookup true exampleTable "--input-d".toList) = .ok (some 2) ∧
